@@ -647,22 +647,29 @@ func pushConnNow(up *rtpUpConnection, g *group.Group, cs []group.Client) {
 	}
 }
 
-// pushConn schedules a call to pushConnNow
-func pushConn(up *rtpUpConnection, g *group.Group, cs []group.Client) {
+// pushConn schedules a call to pushConnNow.  The connection is pushed to
+// the clients that are in the group when the push happens, not to those
+// that were there when it was scheduled.
+func pushConn(up *rtpUpConnection, g *group.Group, c group.Client) {
+	if g == nil {
+		// the client has left its group
+		return
+	}
+
 	up.mu.Lock()
 	up.pushed = false
 	up.mu.Unlock()
 
-	go func(g *group.Group, cs []group.Client) {
+	go func(g *group.Group, c group.Client) {
 		time.Sleep(200 * time.Millisecond)
 		up.mu.Lock()
 		pushed := up.pushed
 		up.pushed = true
 		up.mu.Unlock()
 		if !pushed {
-			pushConnNow(up, g, cs)
+			pushConnNow(up, g, g.GetClients(c))
 		}
-	}(g, cs)
+	}(g, c)
 }
 
 func newUpConn(c group.Client, id string, label string, offer string) (*rtpUpConnection, error) {
@@ -718,10 +725,10 @@ func newUpConn(c group.Client, id string, label string, offer string) (*rtpUpCon
 
 		up.mu.Unlock()
 
-		pushConn(up, c.Group(), c.Group().GetClients(c))
+		pushConn(up, c.Group(), c)
 	})
 
-	pushConn(up, c.Group(), c.Group().GetClients(c))
+	pushConn(up, c.Group(), c)
 	go rtcpUpSender(up)
 
 	return up, nil
